@@ -111,7 +111,7 @@ class Rotation(Harness):
     pid, name = "C07", "rotation"
     functions = [CP + "find_protoclusters", CP + "merge_over_origin", CP + "_extend_area_location",
                  "antismash.common.secmet.record:Record.connect_locations", "antismash.common.secmet.record:Record.extend_location"]
-    bound = ("circular record, G = 2 anchoring genes of one rule, origin moved to any position k in [0, n) (before, after or cutting "
+    bound = ("circular record, G = 2 anchoring genes of one rule (plus G = 3 with the new origin in a gap between genes), origin moved to any position k in [0, n) (before, after or cutting "
              "through either gene: the cut gene becomes a two-part origin-spanning gene, built by the specification of rotation), "
              "symbolic coordinates, cutoff and record length, neighbourhood 0; both records go through find_protoclusters in one path")
     outside = "G > 2; candidate cluster / region stages (covered per stage by C05/C06 on origin-spanning inputs); neighbourhood > 0"
@@ -124,17 +124,22 @@ class Rotation(Harness):
                 if (c0, c1) not in (("before", "before"), ("after", "before"), ("after", "after"), ("cut", "before"), ("after", "cut")):
                     continue   # the others contradict g0 lying before g1
                 out.append({"cases": [c0, c1]})
+        # three genes (three separate chains can only merge first with last across the origin): the new origin lies between
+        # genes; quick: after the first gene, thorough: every gap
+        for cases in ([["after", "before", "before"]] if tier == "quick" else
+                      [["before", "before", "before"], ["after", "before", "before"], ["after", "after", "before"], ["after", "after", "after"]]):
+            out.append({"cases": cases})
         return out
 
     def vars(self, var):
         d = {"n": "int", "k": "int", "cutoff": "int"}
-        d.update(shape_vars("g0", "s"))
-        d.update(shape_vars("g1", "s"))
+        for i in range(len(var["cases"])):
+            d.update(shape_vars("g%d" % i, "s"))
         return d
 
     def rotated(self, var, v):
         cons, parts = [], []
-        for i in range(2):
+        for i in range(len(var["cases"])):
             c, p = rotate_case(v["g%ds0" % i], v["g%de0" % i], v["k"], v["n"], var["cases"][i])
             cons.append(c)
             parts.append(p)
@@ -143,7 +148,8 @@ class Rotation(Harness):
     def pre(self, var, v):
         n = v["n"]
         cons, _ = self.rotated(var, v)
-        return L.And(shape_pre("g0", "s", v, n), shape_pre("g1", "s", v, n), v["g0e0"] <= v["g1s0"],
+        g = len(var["cases"])
+        return L.And([shape_pre("g%d" % i, "s", v, n) for i in range(g)], [v["g%de0" % i] <= v["g%ds0" % (i + 1)] for i in range(g - 1)],
                      0 <= v["k"], v["k"] < n, v["cutoff"] >= 1, v["cutoff"] <= 3 * n, cons)
 
     def detect(self, n, gene_parts, cutoff):
@@ -153,12 +159,12 @@ class Rotation(Harness):
         for i, parts in enumerate(gene_parts):
             rec.add_cds_feature(DummyCDS(location=mkloc(parts), locus_tag="g%d" % i, translation="A"))
         doms = defaultdict(lambda: defaultdict(set))
-        protos = cp.find_protoclusters(rec, {"r1": {"g0", "g1"}}, {"r1": mkrule("r1", cutoff, 0)}, {}, doms)
+        protos = cp.find_protoclusters(rec, {"r1": {"g%d" % i for i in range(len(gene_parts))}}, {"r1": mkrule("r1", cutoff, 0)}, {}, doms)
         return [canon_loc(p.core_location) for p in protos]
 
     def run(self, var, v):
         _, rot = self.rotated(var, v)
-        orig = [[(v["g%ds0" % i], v["g%de0" % i])] for i in range(2)]
+        orig = [[(v["g%ds0" % i], v["g%de0" % i])] for i in range(len(var["cases"]))]
         return {"original": self.detect(v["n"], orig, v["cutoff"]), "rotated": self.detect(v["n"], rot, v["cutoff"])}
 
     def post(self, var, v, out):
@@ -166,16 +172,18 @@ class Rotation(Harness):
             return [("no_raise", False)]
         n = v["n"]
         _, rot = self.rotated(var, v)
-        orig = [[(v["g%ds0" % i], v["g%de0" % i])] for i in range(2)]
+        g = len(var["cases"])
+        orig = [[(v["g%ds0" % i], v["g%de0" % i])] for i in range(g)]
 
         def together(cores, genes):
-            return L.Or([L.And(contains_parts(c, genes[0]), contains_parts(c, genes[1])) for c in cores])
+            return [L.Or([L.And(contains_parts(c, genes[a]), contains_parts(c, genes[b])) for c in cores])
+                    for a in range(g) for b in range(a + 1, g)]
 
         def small(cores):
             return L.And([2 * parts_len(c) < n for c in cores])
         guard = L.And(small(out["original"]), small(out["rotated"]))
         return [("same_protoclusters_same_member_genes_after_rotation",
-                 L.Implies(guard, L.And(L.Iff(together(out["original"], orig), together(out["rotated"], rot)),
+                 L.Implies(guard, L.And([L.Iff(p, q) for p, q in zip(together(out["original"], orig), together(out["rotated"], rot))],
                                         len(out["original"]) == len(out["rotated"]))))]
 
 
